@@ -206,6 +206,11 @@ def _identity(run, P):
         ur = first(f"V_ur = self.unification_record_from_equation({var_}, {ide})", lp)
         no = first(f"V_no = type({e})(({ide}, {o}))", f.node)
         ok3 = ur[0] is not None and no[0] is not None
+        if no[0] is None and not has(f"type({e})(({o}, {ide}))", f.node) \
+                and not has(f"type({e})(({ide},))", f.node):
+            # the padded target is built in another way (more identity elements, other
+            # children): which bindings that admits is not decided by this clause
+            raise AnalysisError("map_modulo_identity: construction of the padded target not recognised")
         if ok3:
             calls = find(f"{mp}({e}, {no[1]['V_no']}, unify_many({u}, {ur[1]['V_ur']}))", lp)
             allcalls = [x for x in ast.walk(lp) if isinstance(x, ast.Call) and dotted(x.func) == mp]
@@ -222,6 +227,12 @@ def _identity(run, P):
     tests = [n for n in ast.walk(f.node) if isinstance(n, ast.If)]
     ok = bool(tests) and norm(tests[0].test) == f"len({e}.children) != 2 or hasattr({o}, 'children')" \
         and norm(tests[0].body[0]) == f"return {mp}({e}, {o}, {u})"
+    if tests and not ok:
+        atoms = tests[0].test.values if isinstance(tests[0].test, ast.BoolOp) else [tests[0].test]
+        known = {f"len({e}.children) != 2", f"hasattr({o}, 'children')"}
+        if any(norm(a_) not in known for a_ in atoms):
+            raise AnalysisError(f"map_modulo_identity: restriction test {norm(tests[0].test)[:60]} "
+                                f"not recognised")
     run.ob("C17.identity", f, tests[0] if tests else f.node, ok,
            construct="otherwise defer to the ordinary mapper with the records unchanged",
            why="restriction stated in the docstring")
@@ -393,6 +404,10 @@ def _match(run, P):
     dflt = [n for n in ast.walk(f.node) if isinstance(n, ast.If) and any(
         has(f"free_variable_names = get_variables({f.arg(0)}, include_function_symbols=True)", s_)
         for s_ in n.body)]
+    if not dflt and not any(isinstance(x, ast.Call) and dotted(x.func) in (
+            "get_variables", "dagrt.utils.get_variables") for x in ast.walk(f.node)):
+        raise AnalysisError("match: the default set of free variables is computed elsewhere; "
+                            "not recognised")
     only_none = bool(dflt) and all(norm(n.test) == "free_variable_names is None" for n in dflt)
     rebinds = [n for n in ast.walk(f.node) if isinstance(n, (ast.Assign, ast.AugAssign))
                and any(dotted(t) == "free_variable_names"
